@@ -17,6 +17,7 @@ import (
 	"github.com/notaryproject/notation-core-go/revocation/result"
 	"github.com/notaryproject/notation-go"
 	"github.com/notaryproject/notation-go/verifier"
+	pf "github.com/notaryproject/notation-plugin-framework-go/plugin"
 	"pgregory.net/rapid"
 
 	"verifharness/internal/envb"
@@ -52,6 +53,9 @@ type Case struct {
 	// two-certificate chain) was valid at the signing time but has expired by now, and the level
 	// only logs the authentic-timestamp validation: the revocation check still sees the whole chain
 	Validity string `json:"validity,omitempty"`
+	// Plugin "ti-only": the signature names an installed verification plugin that owns the
+	// trusted-identity check only (and answers success); revocation stays notation's own business
+	Plugin string `json:"plugin,omitempty"`
 }
 
 var (
@@ -99,6 +103,11 @@ func decorate(sel int) func(i int, r *result.CertRevocationResult) {
 		case 4: // no server results at all, unknown method (root certificates look like this)
 			r.RevocationMethod = result.RevocationMethodUnknown
 			r.ServerResults = nil
+		case 6: // fallback annotation whose trailing CRL server result says OK whatever the certificate result says
+			r.RevocationMethod = result.RevocationMethodOCSPFallbackCRL
+			r.ServerResults = []*result.ServerResult{
+				{Result: result.ResultUnknown, Server: "http://ocsp.example", Error: errors.New("ocsp timeout"), RevocationMethod: result.RevocationMethodOCSP},
+				{Result: result.ResultOK, Server: "http://crl.example/x.crl", RevocationMethod: result.RevocationMethodCRL}}
 		case 5: // server results disagree with the certificate result (the certificate result is what counts)
 			r.ServerResults = []*result.ServerResult{{Result: result.ResultOK, Server: "http://ocsp.example", RevocationMethod: result.RevocationMethodOCSP},
 				{Result: result.ResultRevoked, Server: "http://ocsp3.example", RevocationMethod: result.RevocationMethodOCSP}}
@@ -120,8 +129,12 @@ func check(c Case) (string, string) {
 		scheme, storeType = envb.SchemeSA, "signingAuthority"
 	}
 	desc := kit.Artifact("c05")
-	env := envb.Build(envb.Spec{Format: c.Format, Payload: envb.PayloadFor(desc.MediaType, desc.Digest.String(), desc.Size, nil), ContentType: envb.PayloadType,
-		Scheme: scheme, SigningTime: signingTime, Chain: ch.X509(), Key: ch.Leaf().Key})
+	spec := envb.Spec{Format: c.Format, Payload: envb.PayloadFor(desc.MediaType, desc.Digest.String(), desc.Size, nil), ContentType: envb.PayloadType,
+		Scheme: scheme, SigningTime: signingTime, Chain: ch.X509(), Key: ch.Leaf().Key}
+	if c.Plugin != "" {
+		spec.Ext = []envb.Attr{{Key: envb.AttrPlugin, Critical: true, Value: "c05-plugin"}}
+	}
+	env := envb.Build(spec)
 	rev := &mocks.Revocation{Decor: func(i int, r *result.CertRevocationResult) {
 		if i < len(c.Decor) {
 			decorate(c.Decor[i])(i, r)
@@ -147,6 +160,10 @@ func check(c Case) (string, string) {
 		opts.RevocationClient = rev.Client()
 	} else {
 		opts.RevocationCodeSigningValidator = rev
+	}
+	if c.Plugin != "" {
+		opts.PluginManager = &mocks.Manager{Plugins: map[string]pf.Plugin{"c05-plugin": &mocks.Plugin{Name: "c05-plugin", Version: "1.0.0",
+			Capabilities: []pf.Capability{pf.CapabilityTrustedIdentityVerifier}}}}
 	}
 	v, err := verifier.NewVerifierWithOptions(ts, opts)
 	if err != nil {
@@ -324,7 +341,10 @@ func record(rec *stats.Recorder, c Case) {
 	if c.Validity != "" && len(c.Vector) > 1 {
 		cl = append(cl, "validity="+c.Validity)
 	}
-	rec.Case(cl, nt, stats.Fingerprint(c.Subjects, c.Cancel, c.Validity, fmt.Sprint(c.Vector), fmt.Sprint(c.Warm), fmt.Sprint(c.Decor), c.ValErr, c.ErrWithR, c.Iface, c.Action, c.Base, c.Scheme, c.Format), func() any { return c })
+	if c.Plugin != "" {
+		cl = append(cl, "identity-only-plugin")
+	}
+	rec.Case(cl, nt, stats.Fingerprint(c.Subjects, c.Cancel, c.Validity, c.Plugin, fmt.Sprint(c.Vector), fmt.Sprint(c.Warm), fmt.Sprint(c.Decor), c.ValErr, c.ErrWithR, c.Iface, c.Action, c.Base, c.Scheme, c.Format), func() any { return c })
 }
 
 func evaluate(t stats.Failer, rec *stats.Recorder, c Case) {
@@ -406,7 +426,7 @@ func TestC05_Decorated(t *testing.T) {
 			ErrWithR: rapid.Bool().Draw(rt, "errWithResults")}
 		for i := 0; i < n; i++ {
 			c.Vector = append(c.Vector, rp.Pick(rt, "status", 1, 1, 1, 2, 0, 3, 7))
-			c.Decor = append(c.Decor, rapid.IntRange(0, 5).Draw(rt, "decor"))
+			c.Decor = append(c.Decor, rapid.IntRange(0, 6).Draw(rt, "decor"))
 		}
 		if rapid.IntRange(0, 2).Draw(rt, "warm") == 0 {
 			for i := 0; i < n; i++ {
@@ -417,6 +437,7 @@ func TestC05_Decorated(t *testing.T) {
 		if c.Subjects == "" {
 			c.Validity = rp.Pick(rt, "validity", "", "", "", "expired-nonleaf")
 		}
+		c.Plugin = rp.Pick(rt, "plugin", "", "", "", "ti-only")
 		if rapid.IntRange(0, 11).Draw(rt, "cancel") == 0 {
 			c.Cancel = rp.Pick(rt, "cancelKind", "answer", "ctxerr")
 		}
